@@ -46,7 +46,10 @@ RULE = ('PKIs over 5 LVS schema templates (site/admin/user/device, a flat varian
         'ambiguous schema that admits certificate loops) with EC P-256 / RSA-2048 / Ed25519 keys, chains of depth 1..4, one '
         'deviation per case at a random link (wrong name shape, forged signature, substituted key, missing certificate, Nack, '
         'timeout, unsigned / digest / empty key locator, loop, declared type != algorithm, HMAC with the public bits, empty or '
-        'garbage key, other certificate served), 1..3 validator instances (own anchor, rival anchor, other schema, '
+        'garbage key, other certificate served, key locator = KeyDigest, certificate missing while a validly signed '
+        'schema-allowed Data one component longer exists [the simulated producer answers CanBePrefix Interests as a '
+        'forwarder would], expired / not-yet-valid / ContentType!=KEY certificate [acceptance expected, refusal not '
+        'judged]; EC P-256 and P-384), 1..3 validator instances (own anchor, rival anchor, other schema, '
         'unbuildable ones) and 2..6 validations in random order, plus every permutation of small step sets; non-trivial = at '
         'least one certificate fetch or acceptance; distinct = distinct case descriptions. Stream `lvs` (c14_lvs.py): generated '
         'LVS schemas (generator of C11-C13; half of the multi-root ones funnelled into one root), user_fns dictionaries '
@@ -70,7 +73,7 @@ def _pool():
         return _POOL
     from Cryptodome.PublicKey import ECC, RSA
     for i in range(14):
-        k = ECC.generate(curve='P-256')
+        k = ECC.generate(curve='P-384' if i >= 12 else 'P-256')      # ec12, ec13: a second curve
         _POOL[f'ec{i}'] = ('ec', k.export_key(format='DER'), k.public_key().export_key(format='DER'))
     for i in range(5):
         k = ECC.generate(curve='Ed25519')
@@ -154,6 +157,17 @@ def tmpl_amb(s):
     ]}
 
 
+def with_bundles(schema):
+    """adds, for every certificate rule that has signers, a rule for names ONE COMPONENT LONGER than the certificate
+    name with the same signers (`#userb: <user certificate name>/_ <= #admin`): such Data (segments / bundles published
+    under a certificate name) is what a forwarder may return for a CanBePrefix Interest for the certificate"""
+    t = copy.deepcopy(schema)
+    for rname, pat, signers in schema['rules']:
+        if 'L:KEY' in pat and signers:
+            t['rules'].append([rname + 'b', list(pat) + ['_'], list(signers)])
+    return t
+
+
 TEMPLATES = {'full': tmpl_full, 'loose': tmpl_loose, 'flat': tmpl_flat, 'tworoots': tmpl_tworoots, 'fn': tmpl_fn,
              'amb': tmpl_amb}
 
@@ -221,20 +235,20 @@ def spec_anchor_matches(schema, anchor_uri):
 
 # ------------------------------------------------------------------------------- ground truth
 def fullname(o):
-    if o['kind'] == 'pkt':
+    if o['kind'] in ('pkt', 'blob'):       # blob = a Data carrying key bits under a free name (not a certificate name)
         return o['name']
     return f"{o['name']}/{o['issuer']}/{VERSION}"
 
 
 def kl_name(case, o):
-    if o.get('kl') is None or o['mode'] in ('nosig', 'digest', 'emptykl'):
+    if o.get('kl') is None or o['mode'] in ('nosig', 'digest', 'emptykl', 'kldigest'):
         return None
     return fullname(case['objs'][o['kl']])
 
 
 def declared(o):
     m = o['mode']
-    if m in ('normal', 'emptykl'):
+    if m in ('normal', 'emptykl', 'kldigest'):
         return NATURAL[ktype(o['by'])]
     if m.startswith('as:'):
         return m[3:]
@@ -281,6 +295,8 @@ def spec_chain(case, inst, oid):
         if w[1] in seen:
             return False, 'certificate loop'
         seen.add(w[1])
+        if c.get('odd') and 'odd' not in types:
+            types.append('odd')      # expired / not yet valid / ContentType != KEY: the statement is silent about these
         o = c
 
 
@@ -331,6 +347,10 @@ def _signer_for(case, o):
             if mode == 'emptykl':
                 signature_info.key_locator = KeyLocator()
                 signature_info.key_locator.name = []
+            if mode == 'kldigest':       # KeyLocator = KeyDigest (SHA-256 of the signer's public key) instead of a Name
+                import hashlib
+                signature_info.key_locator = KeyLocator()
+                signature_info.key_locator.key_digest = hashlib.sha256(pool[o['by']][2]).digest()
 
         def get_signature_value_size(self):
             return base.get_signature_value_size()
@@ -362,13 +382,29 @@ def build_wire(case, oid):
     signer = _signer_for(case, o)
     if o['kind'] == 'pkt':
         wire = bytes(enc.make_data(o['name'], enc.MetaInfo(freshness_period=1000), b'payload', signer=signer))
+    elif o['kind'] == 'blob':
+        wire = bytes(enc.make_data(o['name'], enc.MetaInfo(content_type=enc.ContentType.KEY, freshness_period=3600000),
+                                   _content_bits(o), signer=signer))
     elif o['kind'] == 'anchor':
         name, wire = self_sign(o['name'], _content_bits(o), signer)
         assert enc.Name.to_str(name) == fullname(o), (enc.Name.to_str(name), fullname(o))
         wire = bytes(wire)
     else:
-        name, wire = derive_cert(o['name'], o['issuer'], _content_bits(o), signer,
-                                 datetime(2020, 1, 1, tzinfo=timezone.utc), 3600 * 24 * 365 * 30)
+        odd = o.get('odd')
+        start, secs = datetime(2020, 1, 1, tzinfo=timezone.utc), 3600 * 24 * 365 * 30
+        if odd == 'expired':
+            start, secs = datetime(1960, 1, 1, tzinfo=timezone.utc), 3600
+        elif odd == 'future':
+            start, secs = datetime(2090, 1, 1, tzinfo=timezone.utc), 3600
+        from ndn.app_support import security_v2 as sv2
+        real_meta = sv2.MetaInfo
+        if odd == 'ctype':       # new_cert hard-codes ContentType.KEY: substitute BLOB while this one certificate is built
+            sv2.MetaInfo = lambda content_type=None, freshness_period=None, **kw: real_meta(
+                content_type=enc.ContentType.BLOB, freshness_period=freshness_period, **kw)
+        try:
+            name, wire = derive_cert(o['name'], o['issuer'], _content_bits(o), signer, start, secs)
+        finally:
+            sv2.MetaInfo = real_meta
         assert enc.Name.to_str(name) == fullname(o), (enc.Name.to_str(name), fullname(o))
         wire = bytes(wire)
     _WIRES[key] = wire
@@ -469,6 +505,12 @@ def run_impl(case):
                     if ipar.can_be_prefix or not ipar.must_be_fresh:
                         flags_ok = False
                     wo = case['world'].get(uri)
+                    if wo is None and ipar.can_be_prefix:
+                        # as a forwarder does: a CanBePrefix Interest is also satisfied by Data whose name extends it
+                        for n2 in sorted(case['world']):
+                            if n2.startswith(uri + '/') and case['world'][n2][0] == 'D':
+                                wo = case['world'][n2]
+                                break
                     if not wo or wo[0] == 'T':
                         continue
                     if wo[0] == 'N':
@@ -523,7 +565,7 @@ def model_line(case, impl):
     for n, oid in enumerate(oids):
         o = case['objs'][oid]
         kn = kl_name(case, o)
-        signer = kids[o['by']] if o['mode'] in ('normal', 'emptykl') or o['mode'].startswith('as:') else None
+        signer = kids[o['by']] if o['mode'] in ('normal', 'emptykl', 'kldigest') or o['mode'].startswith('as:') else None
         if o['kind'] == 'pkt' or o['key'] == 'empty':
             content = '~'
         elif o['key'] == 'garbage':
@@ -596,6 +638,8 @@ def oracle(case, impl):
             others = sorted(set(j for j, _ in case['steps'][:k] if j != ii))
             return (f'step {k}: instance {ii} accepted a packet without a valid chain to its anchor ({why})'
                     + (' after other instances validated before' if others else ''))
+        if exp and not got and 'odd' in why:
+            continue      # chain through an expired / not-yet-valid / non-KEY certificate: refusing it is not judged
         if exp and not got:
             kinds = ' that contains Ed25519 signatures' if 'ed25519' in why else ''
             return f'step {k}: instance {ii} did not accept a packet with a valid chain{kinds}: {s["verdict"]}'
@@ -731,7 +775,7 @@ def _chain_of(case, oid):
 
 
 DEVIATIONS = ['none', 'none', 'shape', 'skip', 'forged', 'subst', 'missing', 'nack', 'timeout', 'unsigned', 'loop',
-              'astype', 'hmac', 'emptykey', 'garbagekey', 'wrongdata']
+              'astype', 'hmac', 'emptykey', 'garbagekey', 'wrongdata', 'prefixdata', 'prefixdata', 'oddcert']
 
 
 def _inject(case, rng, alloc, pki, pkt_oid, dev):
@@ -740,6 +784,10 @@ def _inject(case, rng, alloc, pki, pkt_oid, dev):
     chain = _chain_of(case, pkt_oid)
     d = len(chain) - 1                       # links 0..d-1; chain[d] is the anchor
     i = rng.randrange(d)
+    if dev in ('prefixdata', 'oddcert'):     # these concern a fetched certificate: a link whose signer is not the anchor
+        if d < 2:
+            return 'none', 0
+        i = rng.randrange(d - 1)
     signee, signer = objs[chain[i]], objs[chain[i + 1]]
     signer_is_anchor = (i + 1 == d)
     if dev == 'shape':
@@ -781,7 +829,8 @@ def _inject(case, rng, alloc, pki, pkt_oid, dev):
         else:
             case['world'][n] = ['N'] if dev == 'nack' else ['T']
     elif dev == 'unsigned':
-        signee['mode'] = rng.choice(['nosig', 'digest', 'emptykl'] if signee['kind'] == 'pkt' else ['digest', 'emptykl'])
+        signee['mode'] = rng.choice(['nosig', 'digest', 'emptykl', 'kldigest'] if signee['kind'] == 'pkt'
+                                    else ['digest', 'emptykl', 'kldigest'])
     elif dev == 'loop':
         if signer_is_anchor:
             dev = 'none'
@@ -805,6 +854,19 @@ def _inject(case, rng, alloc, pki, pkt_oid, dev):
             dev = 'none'
         else:
             case['world'][fullname(signer)] = ['D', rng.choice(others)]
+    elif dev == 'prefixdata':
+        # the named certificate X is not retrievable, but a validly signed, schema-allowed Data named X/seg0 carrying the
+        # same key bits is (the schema has the `...b` rules of with_bundles): only a CanBePrefix Interest can fetch it
+        n = fullname(signer)
+        q = rng.random()
+        if q < 0.7:
+            case['world'].pop(n, None)
+        elif q < 0.85:
+            case['world'][n] = ['T']
+        pki.add({'kind': 'blob', 'name': n + '/seg0', 'key': signer['key'], 'by': signer['by'], 'kl': signer['kl'],
+                 'mode': signer['mode']})
+    elif dev == 'oddcert':
+        signer['odd'] = rng.choice(['expired', 'future', 'ctype'])
     return dev, i
 
 
@@ -833,6 +895,8 @@ def _gen(rng, family='random'):
     dev = rng.choice(DEVIATIONS)
     if amb and rng.random() < 0.7:
         dev = 'loop'
+    if dev == 'prefixdata' or rng.random() < 0.15:
+        case['schemas']['S'] = with_bundles(case['schemas']['S'])
     target = rng.choice(pkts)
     if dev != 'none':
         dev, link = _inject(case, rng, alloc, h1, target, dev)
@@ -947,6 +1011,9 @@ def shrink(case):
             w = case['world'].get(fullname(case['objs'][o['kl']]))
             if w and w[0] == 'D':
                 nxt.append(w[1])
+            for n2, w2 in case['world'].items():       # Data published under the certificate name
+                if n2.startswith(fullname(case['objs'][o['kl']]) + '/') and w2[0] == 'D':
+                    nxt.append(w2[1])
         for x in nxt:
             if x not in keep:
                 keep.add(x)
